@@ -25,7 +25,15 @@ type Case struct {
 	NoIndex      bool   `json:"no_index"`       // no CreateIndex/DropIndex at all (an index created while documents are written misses them)
 	NoRepPush    bool   `json:"no_rep_push"`    // the replicator is never deleted and its peer never stops (pushes do not fail)
 	Procs        []int  `json:"procs"`          // GOMAXPROCS of each repetition
-	Lists        [][]Op `json:"lists"`
+	// Burst > 0: merge-burst case. Burst sibling commits of shared document 0 (each made on its own
+	// node on top of the create commit, incrementing the counter by a distinct amount) are published as
+	// Merge events back to back by the first BurstPublishers goroutines before their own calls; no local
+	// call writes document 0, there are no index or schema calls, and the node retries a conflicting
+	// merge only BurstRetries times.
+	Burst           int    `json:"burst,omitempty"`
+	BurstRetries    int    `json:"burst_retries,omitempty"`
+	BurstPublishers int    `json:"burst_publishers,omitempty"`
+	Lists           [][]Op `json:"lists"`
 }
 
 // Op is one call. D selects a shared document (modulo Docs) or one of the
@@ -69,6 +77,14 @@ type weighted struct {
 }
 
 func kindsFor(c Case, txnUser bool) []weighted {
+	if c.Burst > 0 {
+		// Only reads next to a merge burst: a write of ANOTHER document can legitimately conflict with a
+		// merge (the store records the keys an iterator touches, including the neighbour just past a
+		// prefix, so creates and updates of adjacent documents are seen as read-write conflicts). With
+		// read-only company the merges are the only writers and the oracle "merges of one document never
+		// conflict" needs no further assumption.
+		return []weighted{{kRead, 1}}
+	}
 	ws := []weighted{
 		{kUpdShared, 12}, {kIncShared, 12}, {kIncSharedC, 7}, {kSetIShared, 5},
 		{kCreate, 5}, {kCreateC, 4}, {kUpdOwn, 5}, {kIncOwn, 3}, {kDelOwn, 2}, {kDelOwnC, 2},
@@ -137,6 +153,19 @@ func drawCase(t *rapid.T, maxOps int) Case {
 		c.SharedTxn = false
 	}
 	c.Disjoint = c.SharedTxn && rapid.Bool().Draw(t, "disjoint")
+	if avoid && c.SharedTxn && rec.IsKnown(sigTxnCounter) {
+		c.Disjoint = true // users of the shared transaction never write the same document
+	}
+	if rapid.IntRange(0, 3).Draw(t, "burst?") == 0 {
+		c.Burst = rapid.IntRange(6, 24).Draw(t, "burst")
+		c.BurstRetries = rapid.IntRange(1, 2).Draw(t, "burstRetries")
+		c.BurstPublishers = rapid.IntRange(1, 2).Draw(t, "burstPublishers")
+		c.Chain, c.P2P, c.Branchable, c.SharedTxn, c.Disjoint = 0, false, false, false, false
+		c.NoIndex, c.NoSchema = true, true
+		if c.Docs < 2 {
+			c.Docs = 2
+		}
+	}
 	c.TxnUser = make([]bool, c.G)
 	if c.SharedTxn {
 		n := 0
@@ -184,6 +213,9 @@ func (c Case) String() string {
 	n := 0
 	for _, l := range c.Lists {
 		n += len(l)
+	}
+	if c.Burst > 0 {
+		return fmt.Sprintf("MERGE-BURST k=%d retries=%d publishers=%d G=%d docs=%d warm=%v calls=%d procs=%v", c.Burst, c.BurstRetries, c.BurstPublishers, c.G, c.Docs, c.Warm, n, c.Procs)
 	}
 	return fmt.Sprintf("G=%d docs=%d chain=%d branchable=%v p2p=%v sharedTxn=%v%v disjoint=%v warm=%v calls=%d procs=%v",
 		c.G, c.Docs, c.Chain, c.Branchable, c.P2P, c.SharedTxn, c.TxnUser, c.Disjoint, c.Warm, n, c.Procs)
